@@ -169,12 +169,31 @@ impl<'a> World<'a> {
 /// Walk a volume with a brand-new VolumeManager over a read-only view of `image` and compare
 /// names, sizes, attributes and file contents with the independent reader's tree.
 pub fn lib_tree_compare(image: &crate::disk::Image, slot: u8, g: &fatspec::Geom, tree: &fatspec::Tree, secs: u64) -> Vec<(String, String)> {
+    lib_tree_compare_ex(image, slot, g, tree, secs, None)
+}
+
+/// `before`: Some((other medium, slot)): the same volume manager first tries to open that slot of the other medium
+/// (whatever the outcome: an empty slot fails right behind the partition table, a volume stays mounted with its root
+/// listed), then the medium is exchanged and the caller reaches for `device()`; everything afterwards must be
+/// answered from the medium now in the slot.
+pub fn lib_tree_compare_ex(image: &crate::disk::Image, slot: u8, g: &fatspec::Geom, tree: &fatspec::Tree, secs: u64, before: Option<(&crate::disk::Image, u8)>) -> Vec<(String, String)> {
     let clock = SimClock::new(secs);
     let mut problems: Vec<(String, String)> = Vec::new();
     let ro = RoDisk::new(image);
     let r = std::panic::catch_unwind(std::panic::AssertUnwindSafe(|| {
-        let fs = make_fs((4, 4, 1), &ro, &clock, 77);
+        let fs = make_fs(if before.is_some() { (4, 5, 2) } else { (4, 4, 1) }, &ro, &clock, 77);
         let mut out: Vec<(String, String)> = Vec::new();
+        if let Some((other, oslot)) = before {
+            ro.alt.set(Some(other));
+            if let Ok(ov) = fs.open_volume(oslot as usize, 0) {
+                if let Ok(d) = fs.open_root_dir(ov, 0) {
+                    let _ = fs.iterate(d, 0, &mut |_| {});
+                    let _ = fs.close_dir(d, 0);
+                }
+            }
+            ro.alt.set(None);
+            fs.touch_device();
+        }
         let v = match fs.open_volume(slot as usize, 0) {
             Ok(v) => v,
             Err(e) => {
